@@ -64,6 +64,15 @@ func genC03(out *caseWriter, seed uint64, n int, args []string) error {
 				}
 			}
 		}
+		if i%3 == 1 && r.chance(50) {
+			// the report restricted to one or two commodities (--commodity together with -v): the prices of the other
+			// commodities are still needed - a reported commodity may be priced through them (seeded change
+			// C12e-prices-pruned-by-commodity-filter left price declarations out that mention no reported commodity)
+			cfg.Com = []string{pick(r, o.commodities)}
+			if r.chance(30) {
+				cfg.Com = append(cfg.Com, pick(r, o.commodities))
+			}
+		}
 		_ = time.Now
 		items = append(items, caseIn{fmt.Sprintf("C03-%d-%d", seed, i), "C03.bal", cfg.Enc() + " | " + j.Enc()})
 	}
